@@ -188,7 +188,8 @@ def run(ctx):
         layouts = LAYOUTS[:4] if quick else LAYOUTS
         classes = ['ok', 'missing_csv_dir', 'missing_query', 'corrupt_query', 'negative_raw', 'root_unusable',
                    'unknown_marker', 'other_taxonomy', 'fault_kill', 'fault_raise', 'ok_csc',
-                   'long_csv_name', 'stats_without_sum', 'obsm_taken', 'negative_raw_nolog', 'fault_raise_nolog']
+                   'long_csv_name', 'stats_without_sum', 'obsm_taken', 'negative_raw_nolog', 'fault_raise_nolog',
+                   'fault_term']
         jobs, meta = [], []
         for li, lay in enumerate(layouts):
             for ci, cls in enumerate(classes):
@@ -213,7 +214,7 @@ def run(ctx):
                 elif cls == 'other_taxonomy':
                     s['markers'] = {'0/0': s['markers']['0/0'], '7/7': [1, 2]}
                     s['markers'].pop('1/1', None)
-                elif cls in ('fault_kill', 'fault_raise', 'fault_raise_nolog'):
+                elif cls in ('fault_kill', 'fault_raise', 'fault_raise_nolog', 'fault_term'):
                     pp = root / 'plan.json'
                     json.dump(pooltrace.fault_plan(s, 2, 'mid', cls.split('_')[1]), open(pp, 'w'))
                     plan = str(pp)
